@@ -342,9 +342,9 @@ static gd_entry_t *_GD_Add(DIRFILE *restrict D,
       }
 
       /* check protection */
-      if (D->fragment[entry->fragment_index].protection & GD_PROTECT_DATA) {
+      if (D->fragment[E->fragment_index].protection & GD_PROTECT_DATA) {
         _GD_SetError(D, GD_E_PROTECTED, GD_E_PROTECTED_DATA, NULL, 0,
-            D->fragment[entry->fragment_index].cname);
+            D->fragment[E->fragment_index].cname);
         break;
       }
 
@@ -352,7 +352,7 @@ static gd_entry_t *_GD_Add(DIRFILE *restrict D,
       E->e->u.raw.file[0].idata = E->e->u.raw.file[1].idata = -1;
       E->e->u.raw.file[0].subenc = GD_ENC_UNKNOWN;
 
-      E->e->u.raw.filebase = _GD_StripCode(D, entry->fragment_index, E->field,
+      E->e->u.raw.filebase = _GD_StripCode(D, E->fragment_index, E->field,
           flags);
 
       mask = _GD_CopyScalars(D, E, entry, 0x1);
@@ -379,7 +379,7 @@ static gd_entry_t *_GD_Add(DIRFILE *restrict D,
             E->EN(lincom,n_fields), NULL);
       
       for (i = 0; i < E->EN(lincom,n_fields); ++i)
-        _GD_CheckCodeAffixes(D, entry->in_fields[i], entry->fragment_index,
+        _GD_CheckCodeAffixes(D, entry->in_fields[i], E->fragment_index,
             flags);
 
       if (D->error)
@@ -417,7 +417,7 @@ static gd_entry_t *_GD_Add(DIRFILE *restrict D,
     case GD_LINTERP_ENTRY:
       E->e->u.linterp.table_len = -1;
 
-      if (_GD_CheckCodeAffixes(D, entry->in_fields[0], entry->fragment_index,
+      if (_GD_CheckCodeAffixes(D, entry->in_fields[0], E->fragment_index,
             flags))
       {
         break;
@@ -430,16 +430,16 @@ static gd_entry_t *_GD_Add(DIRFILE *restrict D,
     case GD_DIVIDE_ENTRY:
     case GD_INDIR_ENTRY:
     case GD_SINDIR_ENTRY:
-      if (!_GD_CheckCodeAffixes(D, entry->in_fields[0], entry->fragment_index,
+      if (!_GD_CheckCodeAffixes(D, entry->in_fields[0], E->fragment_index,
             flags) && !_GD_CheckCodeAffixes(D, entry->in_fields[1],
-              entry->fragment_index, flags))
+              E->fragment_index, flags))
       {
         E->in_fields[0] = _GD_Strdup(D, entry->in_fields[0]);
         E->in_fields[1] = _GD_Strdup(D, entry->in_fields[1]);
       }
       break;
     case GD_RECIP_ENTRY:
-      if (_GD_CheckCodeAffixes(D, entry->in_fields[0], entry->fragment_index,
+      if (_GD_CheckCodeAffixes(D, entry->in_fields[0], E->fragment_index,
             flags))
       {
         break;
@@ -464,7 +464,7 @@ static gd_entry_t *_GD_Add(DIRFILE *restrict D,
       E->EN(bit,numbits) = entry->EN(bit,numbits);
       E->EN(bit,bitnum) = entry->EN(bit,bitnum);
 
-      if (_GD_CheckCodeAffixes(D, entry->in_fields[0], entry->fragment_index,
+      if (_GD_CheckCodeAffixes(D, entry->in_fields[0], E->fragment_index,
             flags))
       {
         break;
@@ -487,7 +487,7 @@ static gd_entry_t *_GD_Add(DIRFILE *restrict D,
     case GD_PHASE_ENTRY:
       E->EN(phase,shift) = entry->EN(phase,shift);
 
-      if (_GD_CheckCodeAffixes(D, entry->in_fields[0], entry->fragment_index,
+      if (_GD_CheckCodeAffixes(D, entry->in_fields[0], E->fragment_index,
             flags))
       {
         break;
@@ -501,9 +501,9 @@ static gd_entry_t *_GD_Add(DIRFILE *restrict D,
       E->EN(window,windop) = entry->EN(window,windop);
       E->EN(window,threshold) = entry->EN(window,threshold);
 
-      if (_GD_CheckCodeAffixes(D, entry->in_fields[0], entry->fragment_index,
+      if (_GD_CheckCodeAffixes(D, entry->in_fields[0], E->fragment_index,
             flags) || _GD_CheckCodeAffixes(D, entry->in_fields[1],
-              entry->fragment_index, flags))
+              E->fragment_index, flags))
       {
         break;
       }
@@ -523,9 +523,9 @@ static gd_entry_t *_GD_Add(DIRFILE *restrict D,
       E->EN(mplex,count_val) = entry->EN(mplex,count_val);
       E->EN(mplex,period) = entry->EN(mplex,period);
 
-      if (_GD_CheckCodeAffixes(D, entry->in_fields[0], entry->fragment_index,
+      if (_GD_CheckCodeAffixes(D, entry->in_fields[0], E->fragment_index,
             flags) || _GD_CheckCodeAffixes(D, entry->in_fields[1],
-              entry->fragment_index, flags))
+              E->fragment_index, flags))
       {
         break;
       }
@@ -590,7 +590,7 @@ static gd_entry_t *_GD_Add(DIRFILE *restrict D,
         _GD_SetError(D, GD_E_BAD_ENTRY, GD_E_ENTRY_POLYORD, NULL,
             entry->EN(polynom,poly_ord), NULL);
       } else
-        _GD_CheckCodeAffixes(D, entry->in_fields[0], entry->fragment_index,
+        _GD_CheckCodeAffixes(D, entry->in_fields[0], E->fragment_index,
             flags);
 
       if (D->error)
